@@ -102,9 +102,9 @@ Definition head_dial (l : xlocal) : bool :=
 
 (* worker program counters / program counters holding the exclusive session lock *)
 Definition wpc (p : xpc) : bool :=
-  match p with XIdle | XSendChecked | XSendHave _ | XSendWrite _ | XAnnounced | XExcl | XDiscClosedQ _ | XDiscClose _ | XDial => true | _ => false end.
+  match p with XIdle | XSendChecked | XSendHave _ | XSendWrite _ | XAnnounced | XExcl | XDiscClosedQ _ | XDiscClose _ | XDial | XSetErr _ => true | _ => false end.
 Definition epc (p : xpc) : bool :=
-  match p with XExcl | XDiscClosedQ _ | XDiscClose _ | XDial => true | _ => false end.
+  match p with XExcl | XDiscClosedQ _ | XDiscClose _ | XDial | XSetErr _ => true | _ => false end.
 
 Definition apc (p : xpc) : bool := match p with XAnnounced => true | _ => false end.
 
@@ -147,6 +147,7 @@ Section Invariant.
     | XDiscClosedQ s => rw_writer (xg_SL g) = Some t /\ head_disc l = true /\ xg_sess g = Some s
     | XDiscClose s => rw_writer (xg_SL g) = Some t /\ head_disc l = true /\ xg_sess g = Some s /\ closed g s = false
     | XDial => rw_writer (xg_SL g) = Some t /\ head_dial l = true /\ xg_sess g = None
+    | XSetErr ok => rw_writer (xg_SL g) = Some t /\ is_reconnect l = true /\ dial_flag l = ok
     | XBgStart s | XBgListening s | XBgReport s => s = t - n /\ s < length (xg_sessions g)
     | XBgDone | XBgNotSpawned => True
     end.
@@ -181,6 +182,7 @@ Section Invariant.
     - destruct H as (H1 & H2 & H3). destruct (Hw _ Hne H1) as (? & E & ?). rewrite E. auto.
     - destruct H as (H1 & H2 & H3 & H4). destruct (Hw _ Hne H1) as (? & E & ?). rewrite E. auto.
     - destruct H as (H1 & H2 & H3). destruct (Hw _ Hne H1) as (? & E & ?). rewrite E. auto.
+    - destruct H as (H1 & H2 & H3). destruct (Hw _ Hne H1) as (? & E & ?). auto.
   Qed.
 
   Lemma threads_frame (ths : list xlocal) t l l1 g g' :
@@ -305,6 +307,13 @@ Proof.
     + eapply closed_app_beyond; [reflexivity | assumption].
   - intros s0 Hin. destruct (Icc _ Hin). split; [rewrite app_length; lia|].
     erewrite closed_app_old; [ eassumption | reflexivity | assumption ].
+  - (* ... the same for Connect *)
+    intros s0 Hne. destruct (lt_eq_lt_dec s0 (length (xg_sessions g))) as [[Hlt|Heq]|Hgt].
+    + erewrite closed_app_old; [ apply Icl; congruence | reflexivity | assumption ].
+    + congruence.
+    + eapply closed_app_beyond; [reflexivity | assumption].
+  - intros s0 Hin. destruct (Icc _ Hin). split; [rewrite app_length; lia|].
+    erewrite closed_app_old; [ eassumption | reflexivity | assumption ].
   - (* the reader of the (t-n)-th session *)
     match goal with H : nth_error (xg_spawned _) _ = Some _ |- _ => rewrite Isp in H; apply nth_error_seq0 in H as [-> ?] end.
     split; [cbn; exact Hk | cbn; auto].
@@ -386,10 +395,10 @@ Proof. vm_compute. auto. Qed.
    stale error although session 1 is healthy *)
 Definition poison_progs : list (list xop) := [[XConnect true; XReconnect true; XSendRaw [x01] true]].
 Definition poison_plan : list (bool * bool) := [(false, true); (false, false)].
-Definition poison_sched : list nat := [0;0;0;0; 1;1; 0;0;0;0;0;0; 1;1; 0].
+Definition poison_sched : list nat := [0;0;0;0; 1;1; 0;0;0;0;0;0;0; 1;1; 0].
 
 Theorem pinned_poisons :
-  let c6 := fst (xs_exec true 1 (xinit poison_progs poison_plan 2) (firstn 12 poison_sched)) in
+  let c6 := fst (xs_exec true 1 (xinit poison_progs poison_plan 2) (firstn 13 poison_sched)) in
   let r := xs_exec true 1 (xinit poison_progs poison_plan 2) poison_sched in
   reach true poison_progs poison_plan 2 (fst r) /\
   (* after the Reconnect: cleared *)
@@ -443,6 +452,9 @@ Proof.
   all: unfold step_summary.
   all: try solve [left; repeat split; reflexivity].
   all: try solve [right; do 3 eexists; split; [eassumption | split; [reflexivity | split; [reflexivity | left; repeat split; reflexivity ]]]].
+  all: try solve [right; do 3 eexists; split; [eassumption | split; [reflexivity | split; [
+                    match goal with |- ret_ok (XReconnect ?b) _ = true => destruct b; reflexivity end
+                  | left; repeat split; try reflexivity; match goal with |- call_frames (XReconnect ?b) _ = [] => destruct b; reflexivity end ]]]].
   all: right; do 3 eexists; split; [eassumption | split; [reflexivity | split; [|right; do 3 eexists; repeat split; eauto]]].
   all: unfold closed; try destruct b; destruct (xs_closed (sess_get g s)); reflexivity.
 Qed.
@@ -643,29 +655,27 @@ Proof.
   cbn. eapply nth_error_set_nth_eq; eauto.
 Qed.
 
-(* the error flag changes only in three ways: set by the reader of the CURRENT session, set by a
-   failed Reconnect, cleared by a successful Reconnect *)
+(* the error flag changes only in three ways: set by the reader of the CURRENT session, set by the
+   setErr step of a failed Reconnect, cleared by the setErr step of a successful Reconnect *)
 Theorem sticky n c t l c' e :
   nth_error (thr c) t = Some l -> xs_step false n c t = Some (c', e) ->
   xg_err (glob c') <> xg_err (glob c) ->
   (xg_err (glob c') = true /\
      ((exists s, x_pc l = XBgReport s /\ xg_sess (glob c) = Some s /\ e = None)
-      \/ (x_pc l = XDial /\ (exists ops, x_ops l = XReconnect false :: ops) /\ e = Some (XEvNew false)
-          /\ xg_sess (glob c') = None)))
-  \/ (xg_err (glob c') = false /\ x_pc l = XDial /\ (exists ops, x_ops l = XReconnect true :: ops)
-      /\ e = Some (XEvNew true)).
+      \/ (x_pc l = XSetErr false /\ e = None /\ xg_sess (glob c') = xg_sess (glob c))))
+  \/ (xg_err (glob c') = false /\ x_pc l = XSetErr true /\ e = None /\ xg_sess (glob c') = xg_sess (glob c)).
 Proof.
   intros Hl H Hne. destruct (xs_step_inv' _ _ _ _ _ _ _ Hl H) as (g' & l' & Hs & -> & _).
   destruct c as [g ths]; cbn [glob thr] in *. clear H Hl.
   xstep_destruct Hs; inversion Hs; subst; clear Hs; cbn in Hne; try congruence.
-  - destruct (is_reconnect l) eqn:Hr; try congruence.
-    apply is_reconnect_true in Hr as (ok & ops & Hops & Hd).
-    right. repeat split; auto. exists ops. congruence.
-  - destruct (is_reconnect l) eqn:Hr; try congruence.
-    apply is_reconnect_true in Hr as (ok & ops & Hops & Hd).
-    left. split; auto. right. repeat split; auto. exists ops. congruence.
-  - left. split; [reflexivity|]. left. exists s. repeat split; auto.
-    match goal with H : Nat.eqb _ _ = true |- _ => apply Nat.eqb_eq in H; now subst end.
+  all: lazymatch goal with
+       | H : x_pc _ = XSetErr ?b |- _ =>
+           destruct b; cbn in *;
+           [ right; repeat split; auto | left; split; [reflexivity|]; right; repeat split; auto ]
+       | H : x_pc _ = XBgReport ?s |- _ =>
+           left; split; [reflexivity|]; left; exists s; repeat split; auto;
+           match goal with H : Nat.eqb _ _ = true |- _ => apply Nat.eqb_eq in H; now subst end
+       end.
 Qed.
 
 (* (i) a reader whose session has been replaced leaves the error flag (and everything else) alone *)
@@ -716,36 +726,53 @@ Proof.
   unfold head_send in Hh. destruct (x_ops l) as [|[] ?]; try discriminate; rewrite He; discriminate.
 Qed.
 
-(* (iii) a successful Reconnect clears the flag and installs a fresh, open session *)
-Theorem reconnect_clears n c t l ops c' e :
-  nth_error (thr c) t = Some l -> x_pc l = XDial -> x_ops l = XReconnect true :: ops ->
+(* (iii) Reconnect, holding the exclusive lock: the dial installs a fresh, open session (or none) and leaves the
+   flag alone; the setErr step that follows clears the flag after a successful dial, sets it after a failed one,
+   releases the lock and returns *)
+Theorem reconnect_dials n c t l ok ops c' e :
+  nth_error (thr c) t = Some l -> x_pc l = XDial -> x_ops l = XReconnect ok :: ops ->
   xs_step false n c t = Some (c', e) ->
-  e = Some (XEvNew true) /\ xg_err (glob c') = false /\
-  xg_sess (glob c') = Some (length (xg_sessions (glob c))) /\
-  length (xg_sessions (glob c')) = S (length (xg_sessions (glob c))) /\
-  closed (glob c') (length (xg_sessions (glob c))) = false /\
-  nth_error (thr c') t = Some (xfin l 0%N).
+  e = Some (XEvNew ok) /\ xg_err (glob c') = xg_err (glob c) /\ xg_SL (glob c') = xg_SL (glob c) /\
+  nth_error (thr c') t = Some (xat l (XSetErr ok)) /\
+  (if ok then xg_sess (glob c') = Some (length (xg_sessions (glob c))) /\
+              length (xg_sessions (glob c')) = S (length (xg_sessions (glob c))) /\
+              closed (glob c') (length (xg_sessions (glob c))) = false
+   else xg_sess (glob c') = None /\ xg_sessions (glob c') = xg_sessions (glob c)).
 Proof.
   intros Hl Hpc Hops H. destruct (xs_step_inv' _ _ _ _ _ _ _ Hl H) as (g' & l' & Hs & -> & Hl').
   destruct c as [g ths]; cbn [glob thr] in *.
   unfold xstep in Hs. rewrite Hpc in Hs. unfold do_dial, dial_flag, is_reconnect in Hs. rewrite Hops in Hs.
-  destruct (xg_panic g); try discriminate. inversion Hs; subst; clear Hs. cbn.
-  repeat split; auto.
-  - rewrite app_length. cbn. lia.
-  - unfold closed, sess_get. cbn. rewrite app_nth2, Nat.sub_diag by lia. reflexivity.
+  destruct (xg_panic g); try discriminate. destruct ok; inversion Hs; subst; clear Hs; cbn.
+  - repeat split; auto.
+    + rewrite app_length. cbn. lia.
+    + unfold closed, sess_get. cbn. rewrite app_nth2, Nat.sub_diag by lia. reflexivity.
+  - repeat split; auto.
+Qed.
+
+Theorem reconnect_clears n c t l c' e :
+  nth_error (thr c) t = Some l -> x_pc l = XSetErr true ->
+  xs_step false n c t = Some (c', e) ->
+  e = None /\ xg_err (glob c') = false /\ xg_sess (glob c') = xg_sess (glob c) /\
+  xg_sessions (glob c') = xg_sessions (glob c) /\ xg_SL (glob c') = wunlock (xg_SL (glob c)) /\
+  nth_error (thr c') t = Some (xfin l 0%N).
+Proof.
+  intros Hl Hpc H. destruct (xs_step_inv' _ _ _ _ _ _ _ Hl H) as (g' & l' & Hs & -> & Hl').
+  destruct c as [g ths]; cbn [glob thr] in *.
+  unfold xstep in Hs. rewrite Hpc in Hs.
+  destruct (xg_panic g); try discriminate. inversion Hs; subst; clear Hs. cbn. repeat split; auto.
 Qed.
 
 (* a failed Reconnect sets it and leaves the client without session *)
-Theorem reconnect_failure_sets n c t l ops c' e :
-  nth_error (thr c) t = Some l -> x_pc l = XDial -> x_ops l = XReconnect false :: ops ->
+Theorem reconnect_failure_sets n c t l c' e :
+  nth_error (thr c) t = Some l -> x_pc l = XSetErr false ->
   xs_step false n c t = Some (c', e) ->
-  e = Some (XEvNew false) /\ xg_err (glob c') = true /\ xg_sess (glob c') = None /\
+  e = None /\ xg_err (glob c') = true /\ xg_sess (glob c') = xg_sess (glob c) /\
   nth_error (thr c') t = Some (xfin l 6%N).
 Proof.
-  intros Hl Hpc Hops H. destruct (xs_step_inv' _ _ _ _ _ _ _ Hl H) as (g' & l' & Hs & -> & Hl').
+  intros Hl Hpc H. destruct (xs_step_inv' _ _ _ _ _ _ _ Hl H) as (g' & l' & Hs & -> & Hl').
   destruct c as [g ths]; cbn [glob thr] in *.
-  unfold xstep in Hs. rewrite Hpc in Hs. unfold do_dial, dial_flag, is_reconnect in Hs. rewrite Hops in Hs.
-  destruct (xg_panic g); try discriminate. inversion Hs; subst; clear Hs. cbn. auto.
+  unfold xstep in Hs. rewrite Hpc in Hs.
+  destruct (xg_panic g); try discriminate. inversion Hs; subst; clear Hs. cbn. repeat split; auto.
 Qed.
 
 (* ====================================================================================== *)
@@ -1053,6 +1080,7 @@ Definition cur_ok (pc : xpc) (ops : list xop) (cur : list xevent) : Prop :=
   match pc with
   | XSendWrite s | XDiscClose s => cur = [XEvClosedQ s false]
   | XDial => match ops with XReconnect _ :: _ => disc_trace_ok cur = true | _ => cur = [] end
+  | XSetErr b => exists d, cur = d ++ [XEvNew b] /\ disc_trace_ok d = true
   | _ => cur = []
   end.
 
@@ -1093,6 +1121,14 @@ Proof.
                   repeat match goal with |- context [if ?b then _ else _] => destruct b end; reflexivity].
   all: try solve [right; do 3 eexists; split; [eassumption | split; [reflexivity |]];
                   cbn [evl]; rewrite reconnect_trace by assumption; reflexivity].
+  (* Reconnect: the dial step goes on to setErr, the setErr step finishes the call *)
+  all: try solve [left; repeat split; try reflexivity; unfold cur_ok; cbn [xat x_pc x_ops x_rets evl];
+                  eexists; split; [reflexivity | assumption]].
+  all: try solve [right; do 3 eexists; split; [eassumption | split; [reflexivity |]];
+                  cbn [evl]; rewrite app_nil_r;
+                  match goal with H : exists d, _ = d ++ _ /\ _ |- _ => destruct H as (d & -> & Hd) end;
+                  rewrite reconnect_trace by assumption;
+                  repeat match goal with b : bool |- _ => destruct b end; cbn in *; try discriminate; try congruence; reflexivity].
   all: right; do 3 eexists; split; [eassumption | split; [reflexivity |]];
        cbn; rewrite Nat.eqb_refl, bytes_eqb_refl; destruct b, (xs_closed (sess_get g s)); reflexivity.
 Qed.
@@ -1241,7 +1277,12 @@ Proof.
   - destruct Lt as [Lt _]. subst cur. destruct (x_ops l) as [|[[?|] ?|? ?|?| |?] ?]; try discriminate; reflexivity.
   - destruct Lt as (_ & Lt & _). subst cur. destruct (x_ops l) as [|[[?|] ?|? ?|?| |?] ?]; try discriminate; reflexivity.
   - destruct Lt as (_ & Lt & _). destruct (x_ops l) as [|[[?|] ?|? ?|?| |?] ?]; try discriminate; try (subst cur; reflexivity).
-    cbn. destruct cur as [|[] [|? ?]]; auto; destruct r; auto.
+    cbn. destruct cur as [|[] [|[] [|? ?]]]; cbn in *; try discriminate; auto;
+      repeat match goal with r : bool |- _ => destruct r end; cbn in *; try discriminate; auto.
+  - destruct Lt as (_ & Lt & _). destruct Hc as (d & -> & Hd). unfold is_reconnect in Lt.
+    destruct (x_ops l) as [|[[?|] ?|? ?|?| |?] ?]; try discriminate.
+    destruct d as [|[] [|[] [|? ?]]]; cbn in *; try discriminate; auto;
+      repeat match goal with r : bool |- _ => destruct r end; cbn in *; try discriminate; auto.
 Qed.
 
 (* THE TRACE THEOREM: after any schedule, the calls each thread made on its environment (the factory
@@ -1380,7 +1421,7 @@ Proof. vm_compute. repeat split. Qed.
 (* the checker rejects the runs of the defective code: the panicking Send (Closed() = false, then
    neither a Write nor an encode error), and a Send that writes to the successor session *)
 Definition cross_progs : list (list xop) := [[XConnect true; XSendRaw [x01] true]; [XReconnect true]].
-Definition cross_sched : list nat := [0;0;0;0; 0;0;0; 1;1;1;1;1;1; 0].
+Definition cross_sched : list nat := [0;0;0;0; 0;0;0; 1;1;1;1;1;1;1; 0].
 Example ex_trace_rejects_pinned :
   (let r := xs_exec true 2 (xinit panic_progs [] 1) panic_sched in trace_ok panic_progs (fst r) (snd r)) = false /\
   (let r := xs_exec true 2 (xinit cross_progs [] 2) cross_sched in
@@ -1397,18 +1438,31 @@ Proof. vm_compute. repeat split. Qed.
    Taking the error check after the Reconnect instead gives the sticky error (2). *)
 Definition gap_progs : list (list xop) := [[XConnect true; XSendRaw [x01] true]; [XReconnect false]].
 Example send_window_now_modelled :
-  let r := xs_exec false 2 (xinit gap_progs [] 1) ([0;0;0;0; 0] ++ repeat 1 6 ++ [0]) in
+  let r := xs_exec false 2 (xinit gap_progs [] 1) ([0;0;0;0; 0] ++ repeat 1 7 ++ [0]) in
   let blocked k := match xs_step false 2 (fst (xs_exec false 2 (xinit gap_progs [] 1) ([0;0;0;0; 0] ++ repeat 1 k))) 0 with
                    | Some _ => false | None => true end in
   outcome r =
   ([(XIdle, [0; 1]%N); (XIdle, [6%N]); (XBgNotSpawned, [])], None, true, [], [0],
    [(0, XEvNew true); (1, XEvClosedQ 0 false); (1, XEvClose 0); (1, XEvNew false)]) /\
   trace_ok gap_progs (fst r) (snd r) = true /\
-  map blocked [0; 1; 2; 3; 4; 5; 6] = [false; true; true; true; true; true; false] /\
-  map x_rets (firstn 1 (thr (fst (xs_exec false 2 (xinit gap_progs [] 1) ([0;0;0;0] ++ repeat 1 6 ++ [0]))))) = [[0; 2]%N].
+  map blocked [0; 1; 2; 3; 4; 5; 6; 7] = [false; true; true; true; true; true; true; false] /\
+  map x_rets (firstn 1 (thr (fst (xs_exec false 2 (xinit gap_progs [] 1) ([0;0;0;0] ++ repeat 1 7 ++ [0]))))) = [[0; 2]%N].
 Proof. vm_compute. repeat split. Qed.
 
+(* the setErr step belongs to a Reconnect whose dial had exactly that outcome, and runs under the exclusive lock *)
+Theorem seterr_is_reconnect progs plan readers c t l ok :
+  reach false progs plan readers c -> nth_error (thr c) t = Some l -> x_pc l = XSetErr ok ->
+  (exists ops, x_ops l = XReconnect ok :: ops) /\ rw_writer (xg_SL (glob c)) = Some t.
+Proof.
+  intros R Hl Hpc. apply reach_ginv in R. destruct (gi_threads _ _ R _ _ Hl) as [_ Lt].
+  rewrite Hpc in Lt. destruct Lt as (W & Hr & Hd).
+  apply is_reconnect_true in Hr as (ok' & ops & Hops & Hd'). split; [|exact W].
+  exists ops. congruence.
+Qed.
+
 Print Assumptions reach_ginv.
+Print Assumptions seterr_is_reconnect.
+Print Assumptions reconnect_dials.
 Print Assumptions no_panic.
 Print Assumptions pinned_panics.
 Print Assumptions pinned_poisons.
